@@ -92,6 +92,9 @@ func main() {
 			failAll(ids, *evdir, *tier, seed, start, fmt.Sprintf("only %d source functions loaded from v2 module", len(v2.SrcFuncs)))
 		}
 	}
+	if os.Getenv("IAVLCHECK_DUMPFORMAT") != "" {
+		dumpFormats(root, v2)
+	}
 	loadT := time.Since(start)
 	fmt.Printf("loaded in %.1fs (root funcs=%d)\n", loadT.Seconds(), func() int {
 		if root != nil {
